@@ -111,6 +111,16 @@ pub fn gen(rng: &mut Rng, tier: Tier, out: &mut Vec<String>) {
         out.push(format!("sp_prod q {} {} {} {} {} 2", r, c, s, gen_vec_str::<Q>(rng, k, 0, 0), gen_vec_str::<Q>(rng, k, 0, 0)));
         out.push(format!("sp_hist q {} {} {} 3 get {} {} insert {} {} 5 get {} {}", r, c, s, k, 0, k, k, 0, k));
     } } } }
+    // Sparse constructor: one out-of-range triplet (row or column) at EVERY position of the list and in every
+    // column, among valid ones (the constructor sorts by column: the check must not depend on where it lands)
+    for r in 1..=3usize { for c in 1..=3usize { for nvalid in 0..=3usize { for pos in 0..=nvalid { for badcol in 0..=c {
+        if tier == Tier::Quick && (r + c + nvalid + pos + badcol) % 2 != 0 { continue; }
+        let mut v: Vec<(usize, usize, Q)> = crate::c06::gen_pattern::<Q>(rng, r, c, 100); v.truncate(nvalid);
+        let bad = if badcol == c { (rng.below(r), c + rng.below(2), Q::int(1)) } else { (r + rng.below(2), badcol, Q::int(1)) };
+        v.insert(pos.min(v.len()), bad);
+        let mut s = format!("{}", v.len()); for (i, j, x) in &v { s.push_str(&format!(" {} {} {}", i, j, x.wr())); }
+        out.push(format!("sp_hist q {} {} {} 0", r, c, s));
+    } } } } }
     // iterative solvers
     for (rows, cols, bl, xl) in [(3usize, 3usize, 2usize, 3usize), (3, 3, 3, 2), (2, 3, 2, 2), (3, 2, 3, 3), (3, 3, 4, 4)] {
         for solver in ["cg", "bicg", "bicgstab", "qmr"] {
